@@ -517,7 +517,7 @@ def check_c05(repo, tier):
                                 unknown.append(f'the last step stores into cores {slots}, not into the two central cores that are returned')
                             elif ms is None or len(ms) != 1 or ms[0][0] != 'S':
                                 unknown.append('the returned s is not recognisably the vector of singular values of a decomposition')
-                            elif trunc and ms[0][3] is None:
+                            elif trunc and ms[0][3] is None and not A.is_one(s.shape[0]):          # (a single singular value passes every relative test: nothing to cut)
                                 bad.append('threshold and max_rank are given, but the singular values of the central decomposition are returned uncut (values below the relative '
                                            'threshold stay in s and are inverted by pinv)')
                             elif trunc and not l2rules.rank_le(sc, s.shape[0], kw_rho(sc)):
